@@ -177,7 +177,10 @@ func (fc *FnCtx) builtinExtern(st *State, callee *types.Func, recv *Val, args []
 		if strings.HasSuffix(full, "RLock") {
 			mode = "2"
 		}
-		fc.assert(st, app("=", fc.heldGet(st, addr), "0"), "lock", "mutex not already held by this goroutine (self-deadlock)", call.Pos())
+		if mi != nil && mi.mon != nil {
+			fc.assert(st, app("=", fc.heldGet(st, addr), "0"), "lock", "mutex not already held by this goroutine (self-deadlock)", call.Pos())
+		}
+		fc.checkBlocking(st, mi, call)
 		fc.heldSet(st, addr, mode)
 		fc.acquire(st, mi)
 		st.csSnap = nil
@@ -269,7 +272,10 @@ func (fc *FnCtx) doUnlock(st *State, full, addr string, mi *monInfo, pos token.P
 	if strings.HasSuffix(full, "RUnlock") {
 		want = "2"
 	}
-	fc.assert(st, app("=", fc.heldGet(st, addr), want), "lock-held", "mutex is held in the matching mode at unlock", pos)
+	if mi != nil && mi.mon != nil {
+		fc.assert(st, app("=", fc.heldGet(st, addr), want), "lock-held", "mutex is held in the matching mode at unlock", pos)
+		fc.ghostUpdatesAtRelease(st)
+	}
 	if want == "2" && mi != nil {
 		// a read section must leave the guarded state unchanged
 		if snap, ok := st.rsnap[addr]; ok {
@@ -348,7 +354,7 @@ func (fc *FnCtx) checkGuard(st *State, owner types.Type, field, base string, isW
 		if idx < 0 {
 			fc.fail(pos, "guarded: no mutex field %s in %s", g.MuField, g.Type)
 		}
-		addr := fc.fieldAddr(st, Val{T: base, Ty: types.NewPointer(owner)}, idx, pos).T
+		addr := fc.muFieldAddr(st, Val{T: base, Ty: types.NewPointer(owner)}, owner, idx)
 		h := fc.heldGet(st, addr)
 		var goal string
 		if isWrite {
@@ -559,4 +565,86 @@ func (fc *FnCtx) condOwner(st *State, recv *Val, call *ast.CallExpr) (*monInfo, 
 		return mi, c
 	}
 	return nil, CondDecl{}
+}
+
+// ghostUpdatesAtRelease performs the contract's `atrelease g = e` ghost assignments (simultaneously).
+func (fc *FnCtx) ghostUpdatesAtRelease(st *State) {
+	if fc.contract == nil || len(fc.contract.AtRelease) == 0 {
+		return
+	}
+	env := fc.newSpecEnv(st, fc.oldState(), fc.decl.Body.Rbrace)
+	fc.bindParamsOld(env)
+	type upd struct{ key, sort, val string }
+	var us []upd
+	for _, g := range fc.contract.AtRelease {
+		ty, ok := fc.cs.Ghosts[g.Name]
+		if !ok {
+			fc.fail(token.NoPos, "atrelease: unknown ghost %s", g.Name)
+		}
+		t := fc.resolveType(ty, fc.pkg.Types)
+		v := fc.assignConvSpec(env.eval(g.E), t)
+		us = append(us, upd{"ghost$" + g.Name, fc.sortOf(t), v.T})
+	}
+	for _, u := range us {
+		fc.heapSet(st, u.key, u.sort, u.val)
+	}
+}
+
+// checkBlocking: acquiring a mutex declared `blocking T.f` must not happen while a monitor mutex of the
+// current receiver is held (holding one key never blocks operations on another key).
+func (fc *FnCtx) checkBlocking(st *State, mi *monInfo, call *ast.CallExpr) {
+	if mi == nil || fc.cs == nil {
+		return
+	}
+	n, ok := mi.owner.(*types.Named)
+	if !ok {
+		return
+	}
+	isBlocking := false
+	for _, b := range fc.cs.Blocking {
+		if b == n.Obj().Name()+"."+mi.field {
+			isBlocking = true
+		}
+	}
+	if !isBlocking {
+		return
+	}
+	sig := fc.fn.Type().(*types.Signature)
+	r := sig.Recv()
+	if r == nil {
+		return
+	}
+	base, ok := st.vars[r]
+	if !ok {
+		return
+	}
+	sT, owner, isPtr := structOf(base.Ty)
+	rn, ok := owner.(*types.Named)
+	if sT == nil || !isPtr || !ok {
+		return
+	}
+	for _, m := range fc.cs.Monitors {
+		if m.Type != rn.Obj().Name() {
+			continue
+		}
+		idx := fieldIndex(owner, m.MuField)
+		if idx < 0 {
+			continue
+		}
+		addr := fc.muFieldAddr(st, base, owner, idx)
+		fc.assertNamed(st, app("=", fc.heldGet(st, addr), "0"), "no-block-under-table-lock", "", "the table mutex "+m.Type+"."+m.MuField+" is not held while blocking on "+n.Obj().Name()+"."+mi.field, call.Pos())
+	}
+}
+
+// muFieldAddr: identity of the mutex stored in field idx of *base: the field's address for a mutex value
+// field, the stored pointer for a *sync.Mutex field.
+func (fc *FnCtx) muFieldAddr(st *State, base Val, owner types.Type, idx int) string {
+	s := owner.Underlying().(*types.Struct)
+	if _, isPtr := s.Field(idx).Type().Underlying().(*types.Pointer); isPtr {
+		fc.inSpec++
+		v := fc.fieldOf(st, base, idx, token.NoPos)
+		fc.inSpec--
+		return v.T
+	}
+	return fc.fieldAddr(st, base, idx, token.NoPos).T
 }
